@@ -201,6 +201,18 @@ def probe_cfg(ctx, cfg, rng):
     try:
         ex, o = observe(tr)
     except Exception as e:
+        if cfg["kind"] in ("specialized", "basic") and isinstance(e, (ValueError, RuntimeError)):
+            # the root finder gave up (brentq: no sign change / NaN): outside the solver hypothesis of the theorems.  The
+            # solver's inputs are identical for the swapped geometry (theorem solver_inputs_symmetric), so it must give up there too.
+            ctx.extra["solver_gave_up"] = ctx.extra.get("solver_gave_up", 0) + 1
+            try:
+                observe(make_tracer(cfg, cfg["to"], cfg["from"]))
+                ctx.fail("%s:swap-asymmetric-failure:%s" % (cfg["kind"], json.dumps(cfg, sort_keys=True)),
+                         "%s tracer raises %r on %s but returns solutions for the swapped endpoints" % (cfg["kind"], e, json.dumps(cfg)),
+                         {"kind": "sym", "what": "raises", "cfg": cfg})
+            except (ValueError, RuntimeError):
+                pass
+            return
         ctx.fail("%s:raises:%s" % (cfg["kind"], json.dumps(cfg, sort_keys=True)), "%s tracer raises %r on %s" % (cfg["kind"], e, json.dumps(cfg)),
                  {"kind": "sym", "what": "raises", "cfg": cfg})
         return
@@ -229,12 +241,24 @@ def probe_cfg(ctx, cfg, rng):
     # translate
     ox, oy = float(rng.choice([250.0, -1234.5, 1e4, 37.25])), float(rng.choice([-90.0, 4321.0, 0.0, 512.5]))
     f2, t2 = [f[0] + ox, f[1] + oy, f[2]], [t[0] + ox, t[1] + oy, t[2]]
-    ext, ot = observe(make_tracer(cfg, f2, t2))
+    try:
+        ext, ot = observe(make_tracer(cfg, f2, t2))
+    except (ValueError, RuntimeError):
+        if cfg["kind"] not in ("specialized", "basic"):
+            raise
+        ctx.extra["solver_gave_up"] = ctx.extra.get("solver_gave_up", 0) + 1
+        return
     compare(ctx, cfg, "horizontal translation by (%r, %r)" % (ox, oy), o, ot, lambda a: a["em"], lambda a: a["rc"], key_extra="T%r,%r" % (ox, oy))
     # rotate about the vertical axis through the origin
     psi = float(rng.choice([math.pi / 2, math.pi, 1.0, -2.5, rng.uniform(-math.pi, math.pi)]))
     c, s = math.cos(psi), math.sin(psi)
-    exr, orr = observe(make_tracer(cfg, rotz(f, c, s), rotz(t, c, s)))
+    try:
+        exr, orr = observe(make_tracer(cfg, rotz(f, c, s), rotz(t, c, s)))
+    except (ValueError, RuntimeError):
+        if cfg["kind"] not in ("specialized", "basic"):
+            raise
+        ctx.extra["solver_gave_up"] = ctx.extra.get("solver_gave_up", 0) + 1
+        return
     compare(ctx, cfg, "rotation about the vertical by %r" % psi, o, orr, lambda a: rotz(a["em"], c, s), lambda a: rotz(a["rc"], c, s), key_extra="R%r" % psi)
 
 
